@@ -183,6 +183,40 @@ def run(ctx):
     M = e.get_mahalanobis_matrix()
     terms.append("(c14_full %s %s %s)" % (gmat(M, qdy), gmat(np.array(A0, dtype=float), qdy), gmat(vs, qdy)))
     recs.append(dict(kind='full', inp=inp, M=M, A0=np.array(A0, dtype=float), vs=vs))
+  # ---- diagonal variant started from a matrix that is not diagonal (covariance / random / array): the learned matrix is
+  # diagonal with non-negative entries whatever the initial matrix held; a NaN is reported by ValueError, nothing else is raised
+  from metric_learn.exceptions import NonPSDError
+  for j in range(24 if thorough else 12):
+    name = ['MMC', 'MMC_Supervised'][j % 2]
+    data = fits.make_data(rng, d=int(rng.integers(2, 5)))
+    d = data['d']
+    initk = ['covariance', 'random', 'array'][j // 2 % 3]
+    kw = dict(max_iter=int(rng.choice([3, 10, 40])), init=initk if initk != 'array' else fits.spd_array(rng, d) + 1.0,
+              random_state=int(rng.integers(0, 100)), diagonal=True, diagonal_c=float([1000.0, 100.0, 10.0, 1.0][j // 6 % 4]))
+    if name == 'MMC_Supervised':
+      kw['n_constraints'] = int(rng.integers(8, 30))
+    opt = {k: (v if not isinstance(v, np.ndarray) else v.tolist()) for k, v in kw.items()}
+    inp = dict(estimator=name, params=opt, X=data['X'].tolist(), y=data['y'].tolist())
+    ctx.count('diagonal_from_full_init', 1)
+    try:
+      with warnings.catch_warnings():
+        warnings.simplefilter('ignore')
+        est = fits.fit(name, kw, data)
+    except (NonPSDError, np.linalg.LinAlgError) as ex:
+      ctx.fail_input('diagonal_nonneg', 'diagonal MMC raises %s (its matrix is diagonal and non-negative by construction)' % type(ex).__name__, inp)
+      continue
+    except ValueError:
+      ctx.hist('diagonal_outcome', 'ValueError')
+      continue
+    except Exception as ex:
+      ctx.fail_input('fit_runs', '%s raises %s' % (name, type(ex).__name__), inp, observed=str(ex)[:200])
+      continue
+    M = est.get_mahalanobis_matrix()
+    ctx.hist('diagonal_outcome', 'returned')
+    off = M - np.diag(np.diag(M))
+    if not np.isfinite(M).all() or np.abs(off).max() > 0 or np.diag(M).min() < 0:
+      ctx.fail_input('diagonal_nonneg', 'diagonal MMC started from a non-diagonal matrix returns a matrix that is not diagonal with non-negative entries',
+                     inp, observed=M.tolist())
   if ok:
     res = ctx.run_cases('c14', HEADER, terms, per_file=10)
     for r, rec in zip(res, recs):
